@@ -2,10 +2,11 @@
 
 Decision-table enumeration: all 32 combinations of the report-request flags
 (reception, forwarding, delivery, deletion, status time) x report-to
-{dtn:none, a node, a node with a clockless subject} x 12 processing outcomes
+{dtn:none, a node, a node with a clockless subject} x 15 processing outcomes
 (deliver, forward, forward with fragmentation, delete by route, no matching
 route, three kinds of security failure, forward without transmit route,
-route MTU below the headers, first fragment only, duplicate).  Every administrative record the real
+route MTU below the headers (with and without payload octets), first fragment
+only, duplicate, the node's own administrative endpoint under a receive table whose first match says forward or delete).  Every administrative record the real
 agent hands to the convergence layer is decoded by the independent decoder and
 compared with a reference report generator.'''
 import itertools
@@ -38,11 +39,24 @@ OUTCOMES = {
     'forward-mtu-too-small': ('dtn://fartiny/app', {'receive', 'delete'}),
     # only the first of two fragments of a bundle for a local endpoint has arrived: nothing is delivered
     'fragment-incomplete': ('dtn://node/app', {'receive'}),
+    # a bundle without payload octets whose blocks alone exceed the route MTU: nothing can leave the node
+    'forward-mtu-too-small-empty-payload': ('dtn://fartiny/app', {'receive', 'delete'}),
+    # the node's own administrative endpoint, claimed by the administrative application, while the first
+    # matching entry of the receive table says forward / delete: it is delivered, nothing else
+    'own-endpoint-under-forward-table': ('dtn://node/', {'receive', 'deliver'}),
+    'own-endpoint-under-delete-table': ('dtn://node/', {'receive', 'deliver'}),
 }
+
+
+REPORT_REQUIRED = ('deliver', 'forward', 'forward-fragmented', 'delete-by-route', 'own-endpoint-under-forward-table', 'own-endpoint-under-delete-table')
 
 
 def world_for(outcome):
     rx = [('^dtn://node/.*', 'deliver'), ('^dtn://drop/.*', 'delete'), ('^dtn://.*', 'forward')]
+    if outcome == 'own-endpoint-under-forward-table':
+        rx = [('^dtn://.*', 'forward')]
+    if outcome == 'own-endpoint-under-delete-table':
+        rx = [('^dtn://node/$', 'delete'), ('^dtn://.*', 'forward')]
     tx = [('^dtn://far/.*', 'dtn://next/', None), ('^dtn://farfrag/.*', 'dtn://next/', 120), ('^dtn://fartiny/.*', 'dtn://next/', 60),
           ('^dtn://rpt/.*', 'dtn://next/', None), ('^ipn:9\\..*', 'dtn://next/', None)]
     return BpWorld(dict(node_id=NODE, rx_routes=rx, tx_routes=tx))
@@ -69,6 +83,13 @@ def bundle_for(outcome, flags, report_to, seq=1, subject='clock'):
         blocks.insert(0, dict(type=B.T_AGE, num=3, flags=0, crc_type=0, data=B.enc_age(5000)))
     if outcome == 'forward-mtu-too-small':
         blocks[-1]['data'] = bytes(range(100))
+    if outcome == 'forward-mtu-too-small-empty-payload':
+        blocks[-1]['data'] = b''
+        blocks.insert(0, dict(type=B.T_HOP_COUNT, num=4, flags=0, crc_type=1, data=B.enc_hop_count(30, 1)))
+    if outcome.startswith('own-endpoint-under-'):
+        # a status report about some other bundle, which the administrative application only logs
+        blocks[-1]['data'] = B.enc_status_report([(True, None), (False, None), (False, None), (False, None)], 0,
+                                                 'dtn://elsewhere/app', (700000000001, 3))
     if outcome == 'fragment-incomplete':
         pri.update(flags=flags | B.FLAG_IS_FRAGMENT, frag_offset=0, total_adu=40)
         blocks[-1]['data'] = bytes(range(20))
@@ -142,7 +163,7 @@ def check_case(outcome, flagbits, report_to, subject='clock'):
     if reports and not allowed:
         bad('report-sent-without-cause', dict(), 'report-to %s, requested %r, occurred %r, %d reports'
             % (report_to, sorted(requested), sorted(occurred), len(reports)))
-    if allowed and not reports and outcome in ('deliver', 'forward', 'forward-fragmented', 'delete-by-route'):
+    if allowed and not reports and outcome in REPORT_REQUIRED:
         bad('requested-report-missing', dict(outcome=outcome), 'requested %r, occurred %r' % (sorted(requested), sorted(occurred)))
     asserted_total = set()
     for rep in reports:
@@ -182,7 +203,7 @@ def check_case(outcome, flagbits, report_to, subject='clock'):
             bad('empty-report', dict(), 'no assertion set')
         if outcome in ('forward', 'forward-fragmented') and 'delete' in asserted:
             bad('forwarded-bundle-reported-deleted', dict(outcome=outcome), 'reason %r' % body['reason'])
-    if allowed and reports and outcome in ('deliver', 'forward', 'forward-fragmented', 'delete-by-route'):
+    if allowed and reports and outcome in REPORT_REQUIRED:
         missing = (requested & occurred) - asserted_total
         if missing:
             bad('requested-action-not-reported', dict(actions=','.join(sorted(missing)), outcome=outcome),
@@ -229,13 +250,13 @@ def scenarios(tier):
 
 ASSUMPTIONS = [
     'an absent report-to endpoint is encoded as dtn:none (RFC 9171 has no other way to omit it)',
-    'the twelve outcomes are produced by routing tables / a BIB or BCB with an unknown security context / an undecodable BCB / a route MTU of 120 octets',
+    'the fifteen outcomes are produced by routing tables / a BIB or BCB with an unknown security context / an undecodable BCB / a route MTU of 120 octets',
     'thorough tier: also subjects without CRC / with CRC-32, an ipn report-to endpoint, and subjects that are themselves fragments (fragment fields of the report are not judged)',
     'subjects: a bundle with a creation time, and one from a clockless source (creation time 0, sequence number, age block)',
-    'a report is required for deliver / forward / delete-by-route when a requested action occurred (the title says "exactly when requested"); for the other outcomes only reports that are emitted are judged',
+    'a report is required for deliver / forward / delete-by-route / own-endpoint when a requested action occurred (the title says "exactly when requested"); for the other outcomes only reports that are emitted are judged',
 ]
 
-RULE = ('decision table of 32 flag combinations x (no report-to, report-to, report-to with a clockless subject) x 12 outcomes enumerated completely on a fresh real '
+RULE = ('decision table of 32 flag combinations x (no report-to, report-to, report-to with a clockless subject) x 15 outcomes enumerated completely on a fresh real '
         'agent each; every administrative record reaching the convergence layer is decoded independently and compared '
         'with the reference report; non-trivial = a report was emitted')
 
